@@ -61,6 +61,20 @@ pub fn state_prev_last<'a>(input: In<'a, i32>) {
     .embedded_output("out");
 }
 
+/// `use::state` on an `Optional` with a NON-null initial value whose body sometimes stores null:
+/// the state is the sum of this slice's batch when that is positive, null otherwise.  A slice must
+/// see exactly what the previous slice stored (null included); the initial value only in slice 0.
+pub fn state_opt_keep<'a>(input: In<'a, i32>) {
+    sliced! {
+        let batch = use::batch(input, nondet!(/** harness decides batches */));
+        let mut slot = use::state(|l| Optional::from(l.singleton(q!(100i32))));
+        let seen = slot.clone().into_singleton();
+        slot = batch.fold(q!(|| 0i32), q!(|s, v| *s += v)).filter(q!(|s| *s > 0));
+        seen.into_stream()
+    }
+    .embedded_output("out");
+}
+
 /// a snapshot hook of a keyed aggregation next to a batch hook of lookups
 pub fn lookup_counts<'a>(incs: In<'a, (i32, i32)>, gets: In<'a, i32>) {
     let counts = incs.into_keyed().value_counts();
